@@ -106,4 +106,20 @@ def presentOp (j : Json) : Except String Res := do
          preds := [("safe_output", strs.all Safe.safe), ("neutral_at_line_ends", strs.all Cells.neutralAtBreaks)],
          nontrivial := previews.any fun p => Ansi.height p ≥ 3 }
 
+/-- `rebuild`: an item built twice from one decoded document.  The model's constructors are
+    functions of the document (`Present`, `Pub`: nothing is written to it), so the document is
+    afterwards what it was and the second item shows what the first showed. -/
+def rebuildOp (j : Json) : Except String Res := do
+  let impl := (j.getObjVal? "impl").toOption.getD Json.null
+  if let .ok _ := impl.getObjVal? "baddoc" then return { model := impl, nontrivial := false }
+  let flag (k : String) : Bool := (impl.getObjVal? k).toOption == some (Json.bool true)
+  let strs : List Str := match impl.getObjVal? "second" with
+    | .ok (Json.arr a) => a.toList.filterMap fun v => match v with | Json.str s => some s.toList | _ => none
+    | _ => []
+  pure { model := impl,
+         preds := [("construction_leaves_the_document_as_it_was", flag "unchanged"),
+                   ("same_document_same_item", flag "same"),
+                   ("safe_output", strs.all Safe.safe)],
+         nontrivial := strs.any fun s => s.length > 20 }
+
 end Ops
